@@ -160,6 +160,11 @@ def check_obligations(prop, expected):
     except RuntimeError as e:
         return dict(obligations=len(expected), discharged=0,
                     failed=[('Audit.lean', str(e)[-4000:])], log=str(e), axioms={})
+    if os.environ.get('VERIF_TIER_RUNNING') == 'thorough' and expected:
+        # independent re-check of the compiled library (every module BB imports) by Lean's external checker
+        rc, out = run(['lake', 'env', 'leanchecker', 'BB'], cwd=LEAN_DIR, timeout=3600)
+        if rc != 0:
+            failed.append(('leanchecker', out[-2000:]))
     discharged = 0
     used = {}
     for name in expected:
